@@ -1,5 +1,6 @@
 import PfModel.DriverVal
 import PfModel.Model.XLabel
+import PfModel.Model.XLabelFolder
 /-! Driver for C19 (`xlabel`): the label structure of both xarray constructors on the model's own map run. -/
 open Lean PF PF.Drv PF.Map PF.XLabel
 
@@ -59,8 +60,70 @@ def listify (lists : List String) (e : String × Val) : String × Val :=
   | (n, .arr [k] es) => if lists.contains n then (n, .tup es) else (n, .arr [k] es)
   | e => e
 
+/-- the view of `listify` on a dataset: a 1-D array value of an un-mapped output that is a Python `list` is stored dimensionless -/
+def listifyVar (lists : List String) (v : Var) : Var :=
+  match v.dims, v.data with
+  | none, .arr [_] es => if lists.contains v.name then { v with dims := some [], data := .tup es } else v
+  | _, _ => v
+
+/-- one call of a history (`xhistory`); a load also says which outputs of the run it reads are Python lists -/
+def getOp (j : Json) : R (Op × List String) := do
+  let path ← strF j "path"
+  match ← strF j "op" with
+  | "map" =>
+    let fs ← listF getMFunc j "funcs"
+    let inputs ← getKw (← fld j "inputs")
+    let internal := (← optF (asList (asPair asStr (asList asNat))) j "internal").getD []
+    return (.map path fs inputs internal (← boolF j "cleanup"), [])
+  | "load" =>
+    let names := (← optF (asList asStr) j "names").getD []
+    return (.load path names (← boolF j "load_intermediate"), (← optF (asList asStr) j "lists").getD [])
+  | "outputs" => return (.outputs path (← listF asStr j "names"), [])
+  | "remove" => return (.remove path, [])
+  | o => .error s!"unknown op {o}"
+
+def putObs (lists : List String) : Obs → Json
+  | .mapped (.ok _) => jObj [("mapped", jStr "ok")]
+  | .mapped (.error e) => jObj [("mapped", putMErr e)]
+  | .resumed _ => jObj [("resumed", jBool true)]
+  | .refused => jObj [("refused", jBool true)]
+  | .dataset (.ok d) => jObj [("dataset", putDataset { d with vars := d.vars.map (listifyVar lists) })]
+  | .dataset (.error e) => jObj [("dataset", putMErr e)]
+  | .values (.ok vs) => jObj [("values", jList putVal vs)]
+  | .values (.error e) => jObj [("values", putMErr e)]
+  | .notFound => jObj [("notfound", jBool true)]
+  | .unspecified => jObj [("unspecified", jBool true)]
+  | .removed => jObj [("removed", jBool true)]
+
+/-- what a loader call returns by the SPECIFICATION (`stepSlot`: one state machine per folder); `none` for calls that load nothing -/
+def specObs (eqv : Val → Val → Bool) : List (String × FolderState) → List Op → List (Option Obs)
+  | _, [] => []
+  | st, op :: rest =>
+    let slotOf := fun p => (alookup st p).getD FolderState.absent
+    let here : Option Obs := match op with
+      | .load p names li => some (match slotOf p with
+          | .absent => .notFound | .broken => .unspecified | .run f => .dataset (folderDataset f names li))
+      | .outputs p names => some (match slotOf p with
+          | .absent => .notFound | .broken => .unspecified | .run f => .values (folderOutputs f names))
+      | _ => none
+    here :: specObs eqv (st.map fun (p, s) => (p, stepSlot eqv p s op)) rest
+
+def opPath : Op → String
+  | .map p _ _ _ _ => p | .load p _ _ => p | .outputs p _ => p | .remove p => p
+
+def withSpec (j : Json) (agree : Option Bool) : Json :=
+  match agree with
+  | some b => j.setObjVal! "spec" (jBool b)
+  | none => j
+
 def handle (m : String) (a : Json) : R Json := do
   match m with
+  | "xhistory" =>
+    let ops ← listF getOp a "ops"
+    let obs := (exec valEq [] (ops.map (·.1))).2
+    let spec := specObs valEq (((ops.map (opPath ·.1)).eraseDups).map fun p => (p, FolderState.absent)) (ops.map (·.1))
+    return jArr (((ops.zip obs).zip spec).map fun ((o, ob), sp) =>
+      withSpec (putObs o.2 ob) (sp.map fun s => (putObs o.2 s).compress == (putObs o.2 ob).compress))
   | "xlabel" =>
     let fs ← listF getMFunc a "funcs"
     let inputs ← getKw (← fld a "inputs")
